@@ -99,7 +99,19 @@ func (NetH) Gen(prop string, seed uint64, tier string) *hx.Case {
 			}
 			for round := 0; round < 1+r.Intn(3); round++ {
 				noise()
-				switch r.Pick(35, 20, 25, 20) {
+				switch r.Pick(30, 15, 20, 15, 20) {
+				case 4: // headers first; the node asks for the block with getdata; the peer answers with the block, or with something else
+					add("headers", "hdr-new")
+					noise()
+					switch r.Intn(4) {
+					case 0, 1:
+						add("block", "blk-planned")
+					case 2:
+						add("blocktxn", []string{"bt-valid", "bt-none", "bt-wrong"}[r.Intn(3)])
+					default:
+						add("cmpctblock", "cb-short")
+						add("blocktxn", []string{"bt-valid", "bt-fewer"}[r.Intn(2)])
+					}
 				case 0: // announce by short ids; the node asks for what it misses; answer (or not quite)
 					add("cmpctblock", "cb-short")
 					noise()
@@ -512,6 +524,19 @@ func (n *netRun) convPayload(m *NetMsg, r *hx.Rng) (pl []byte, ok bool) {
 		n.plans, n.cver = map[int]*cbPlan{}, map[int]int{}
 	}
 	switch m.Kind {
+	case "hdr-new":
+		cp := n.plan(p, r)
+		if cp == nil {
+			return nil, false
+		}
+		return append(append(vint(1), cp.blk.H.Bytes()...), 0), true
+	case "blk-planned":
+		cp := n.plan(p, r)
+		if cp == nil {
+			return nil, false
+		}
+		delete(n.plans, p)
+		return cp.blk.Bytes(), true
 	case "blocktx":
 		// relay the next transaction of the block that will be announced
 		cp := n.plan(p, r)
